@@ -149,8 +149,8 @@ def scope_worker(arg):
 def run(ctx):
     ctx.rule = ("TLC enumerates every pair {A.M.0, N.M'.m'} (N in A,B; M, M' in 0..2; m' in 0,1) x attribute combinations "
                 "(message / service, port none / 0 / 5, sealed or delimited, two size classes, response equal / flipped "
-                "sealing / other size), every chain of three (thorough: also one in six of the chains of four) minor versions A.M.1 .. A.M.3 under one major "
-                "version over kind x port x sealing x size, and (thorough) sampled mixed triples; each set is materialised in one namespace and read; accepted "
+                "sealing / other size), every chain of three (thorough: four) minor versions A.M.1 .. A.M.3 under one major "
+                "version over kind x port x sealing x size, each set is materialised in one namespace and read; accepted "
                 "vs rejected-with-InvalidDefinitionError is compared with the declarative rules. Every case is non-trivial "
                 "(two definitions interact or not); distinct by hash of the set")
     ctx.assumptions = ["TLC's evaluation of the specification", "violations located in lookup namespaces are covered by four "
@@ -159,8 +159,9 @@ def run(ctx):
     c02.run_cfg(ctx, "CrossDef", "CrossDef_pairs.cfg", worker, "pairs", mk=lambda blocks: [(b, ctx.seed, 1) for b in blocks], shuffle=True)
     c02.run_cfg(ctx, "CrossDef", "CrossDef_chain3.cfg", worker, "chain3", mk=lambda blocks: [(b, ctx.seed, 1) for b in blocks], shuffle=True)
     if not quick:
-        c02.run_cfg(ctx, "CrossDef", "CrossDef_chain4.cfg", worker, "chain4", mk=lambda blocks: [(b, ctx.seed, 6) for b in blocks], shuffle=True)    # one chain in six
-        c02.run_cfg(ctx, "CrossDef", "CrossDef_triples.cfg", worker, "triples", mk=lambda blocks: [(b, ctx.seed, 60) for b in blocks], shuffle=True)
+        c02.run_cfg(ctx, "CrossDef", "CrossDef_chain4.cfg", worker, "chain4", mk=lambda blocks: [(b, ctx.seed, 1) for b in blocks], shuffle=True)
+        # (CrossDef_triples.cfg - mixed triples, 1.3 * 10^7 states - is not part of the registered run: its dump alone takes longer
+        # than the rest of the tier; TLC checks LoopsDecideTheRules on it in about a minute: tlc -config CrossDef_triples.cfg CrossDef.tla)
         ctx.exhaustive = False
     c02.consume(ctx, core.pmap(scope_worker, [0], procs=1), "scope")
     ctx.sample({"set": ["vnd/0.A.1.0.dsdl (message, sealed)", "vnd/5.A.1.1.dsdl (message, sealed)"], "expected": "rejected: port-ID changed under one major version"})
